@@ -135,13 +135,37 @@ class WireValues(Suite):
 
 class WireBytes(Suite):
     name = "wirebytes"
-    rule = ("byte strings: encodings of random values mutated (bit flips, truncation, insertion, splicing, length-field corruption) and raw random bytes, "
+    rule = ("byte strings: encodings of random values mutated (bit flips, truncation, insertion, splicing, length-field corruption), raw random bytes, and a sweep of length prefixes around 2^31, 2^32, 2^63, 2^64 for every length-delimited field, "
             "through UnmarshalVT (under recover) vs the transcribed Lean decoder: value-or-error equality; non-trivial = distinct string of >= 2 bytes")
 
     def gen(self, rng, tier):
         n = {"quick": 30000, "thorough": 1500000, "search": 5000}[tier]
         ops = []
         seeds = []
+
+        def var(v):
+            v &= (1 << 64) - 1
+            out = bytearray()
+            while True:
+                if v < 128:
+                    out.append(v)
+                    return bytes(out)
+                out.append((v & 127) | 128)
+                v >>= 7
+        # boundary values of every length prefix (deterministic sweep): a length-delimited field of each message whose length is around
+        # 2^31, 2^32, 2^63 and 2^64, at several offsets into the buffer (index + length is what overflows)
+        if tier != "search":
+            for base in (1 << 31, 1 << 32, 1 << 63, 1 << 64):
+                for d in list(range(-24, 4)):
+                    ln = var(base + d)
+                    for kind, pre, tag in (("stat", b"", 0x0a), ("stat", b"", 0x3a), ("stat", b"\x10\x01", 0x52), ("stat", b"", 0x7a),
+                                           ("pkt", b"", 0x12), ("pkt", b"\x08\x01", 0x22), ("pkt", b"", 0x7a)):
+                        ops.append({"op": "wire_dec", "kind": kind, "bytes": hx(pre + bytes([tag]) + ln + b"xy")})
+                    # nested: a Stat field inside a Packet, and a map entry key inside a Stat
+                    inner = b"\x0a" + ln + b"p"
+                    ops.append({"op": "wire_dec", "kind": "pkt", "bytes": hx(b"\x12" + var(len(inner)) + inner)})
+                    ent = b"\x0a" + ln + b"k"
+                    ops.append({"op": "wire_dec", "kind": "stat", "bytes": hx(b"\x52" + var(len(ent)) + ent)})
         for _ in range(n):
             kind = rng.choice(["stat", "pkt"])
             r = rng.random()
